@@ -989,7 +989,33 @@ func (sc *c16BGV) runRefresh(d *c16Deploy, ct *rlwe.Ciphertext, m []uint64, inNo
 	level := ct.Level()
 	ringQ := params.RingQ().AtLevel(level)
 	minLevel := ch.Draw("e2s-level", level+1) // decryption level <= ciphertext level
-	outLevel := ch.Draw("output-level", params.MaxLevelQ()+1)
+	// output parameters: the input ones, or (parameter switching) another modulus chain over the same ring
+	// degree and plaintext modulus, with the parties' secrets for that chain
+	bpOut, sksOut, idealOut, scOut := bp, d.sks, d.ideal, sc
+	if ch.Chance("switch-parameters", 1, 3) {
+		spec := catalog.DrawRLWESpec(ch, catalog.SpecOpts{MinLogN: bp.LogN(), MaxLogN: bp.LogN(), MinQ: 1, MaxQ: 4, MinP: 0, MaxP: 1, MinBits: 36, MaxBits: 58})
+		key := fmt.Sprintf("bgv/%s/T%d", spec.Key(), sc.T)
+		c := ctx.Cached(key, func(*core.Xoshiro) any {
+			p, err := bgv.NewParametersFromLiteral(bgv.ParametersLiteral{LogN: spec.LogN, LogQ: spec.LogQ, LogP: spec.LogP, PlaintextModulus: sc.T})
+			if err != nil {
+				return err
+			}
+			return &p
+		})
+		if p, ok := c.(*bgv.Parameters); ok {
+			bpOut = *p
+			kgen := rlwe.NewKeyGenerator(bpOut.Parameters)
+			sksOut = make([]*rlwe.SecretKey, d.n)
+			for i := range sksOut {
+				sksOut[i] = kgen.GenSecretKeyNew()
+			}
+			idealOut = addSK(bpOut.Parameters, sksOut)
+			scOut = &c16BGV{params: bpOut, enc: bgv.NewEncoder(bpOut), T: sc.T}
+			ctx.Count("probe.parameter-switching", 1)
+		}
+	}
+	paramsOut := bpOut.Parameters
+	outLevel := ch.Draw("output-level", paramsOut.MaxLevelQ()+1)
 	var tf *mpbgv.MaskedTransformFunc
 	want := append([]uint64{}, m...)
 	name := "Refresh"
@@ -1007,7 +1033,7 @@ func (sc *c16BGV) runRefresh(d *c16Deploy, ct *rlwe.Ciphertext, m []uint64, inNo
 		}
 		lin.apply(want, sc.T)
 	}
-	mt0, err := mpbgv.NewMaskedTransformProtocol(bp, bp, d.noise)
+	mt0, err := mpbgv.NewMaskedTransformProtocol(bp, bpOut, d.noise)
 	if err != nil {
 		ctx.Fail("protocol", name+"|constructor", "NewMaskedTransformProtocol failed: %v", err)
 		return false
@@ -1024,11 +1050,11 @@ func (sc *c16BGV) runRefresh(d *c16Deploy, ct *rlwe.Ciphertext, m []uint64, inNo
 		if i > 0 && ch.Bool("proto-by-shallowcopy") {
 			p = mt0.ShallowCopy()
 		} else if i > 0 {
-			p, _ = mpbgv.NewMaskedTransformProtocol(bp, bp, d.noise)
+			p, _ = mpbgv.NewMaskedTransformProtocol(bp, bpOut, d.noise)
 		}
 		s := p.AllocateShare(minLevel, outLevel)
 		var err error
-		pk, site, msg := core.Protect(func() { err = p.GenShare(d.sks[i], d.sks[i], ct, crp, tf, &s) })
+		pk, site, msg := core.Protect(func() { err = p.GenShare(d.sks[i], sksOut[i], ct, crp, tf, &s) })
 		if pk || err != nil {
 			ctx.Fail("protocol", name+".GenShare", "GenShare (e2s level %d, output level %d, ct level %d) failed: panic=%v %s %s err=%v", minLevel, outLevel, level, pk, site, msg, err)
 			return false
@@ -1057,7 +1083,7 @@ func (sc *c16BGV) runRefresh(d *c16Deploy, ct *rlwe.Ciphertext, m []uint64, inNo
 			if ok, w := eqPoly(params.RingQ(), x.EncToShareShare.Value, y.EncToShareShare.Value); !ok {
 				return false, "e2s part " + w
 			}
-			return eqPoly(params.RingQ(), x.ShareToEncShare.Value, y.ShareToEncShare.Value)
+			return eqPoly(paramsOut.RingQ(), x.ShareToEncShare.Value, y.ShareToEncShare.Value)
 		},
 		ser: func(ctx *core.RunCtx, s any) (any, bool) {
 			return transit(ctx, s.(*multiparty.RefreshShare), new(multiparty.RefreshShare), true, "RefreshShare")
@@ -1077,12 +1103,21 @@ func (sc *c16BGV) runRefresh(d *c16Deploy, ct *rlwe.Ciphertext, m []uint64, inNo
 	b1 := new(big.Int).Mul(d.shareB, big.NewInt(int64(d.n)))
 	b1.Add(b1, inNoise)
 	b2 := new(big.Int).Mul(d.shareB, big.NewInt(int64(d.n)))
-	exact := sc.budget(minLevel, b1) && sc.budget(outLevel, b2)
+	exact := sc.budget(minLevel, b1) && scOut.budget(outLevel, b2)
 	in := ct.CopyNew()
 	out := in
-	if ch.Bool("distinct-output") {
-		out = bgv.NewCiphertext(bp, 1, ch.Draw("out-alloc-level", params.MaxLevelQ()+1))
-		*out.MetaData = *ct.MetaData
+	if ch.Bool("distinct-output") || paramsOut.MaxLevelQ() != params.MaxLevelQ() || !paramsOut.Equal(&params) {
+		// a newly allocated receiver; its metadata is whatever the constructor put there, or that of another ciphertext
+		out = bgv.NewCiphertext(bpOut, 1, ch.Draw("out-alloc-level", paramsOut.MaxLevelQ()+1))
+		switch ch.Draw("out-metadata", 3) {
+		case 0:
+			*out.MetaData = *ct.MetaData
+		case 1:
+			out.Scale = bp.NewScale(2 + uint64(ch.Draw("out-scale-val", 1000)))
+			ctx.Count("probe.receiver-with-other-scale", 1)
+		default:
+			ctx.Count("probe.receiver-with-default-metadata", 1)
+		}
 	}
 	var terr error
 	pk, site, msg := core.Protect(func() { terr = mt0.Transform(in, tf, crp, *ra, out) })
@@ -1104,7 +1139,7 @@ func (sc *c16BGV) runRefresh(d *c16Deploy, ct *rlwe.Ciphertext, m []uint64, inNo
 		return true
 	}
 	ctx.Count("oracle.message-model", 1)
-	if ok, w := sc.decodeEq(ctx, out, d.ideal, want); !ok {
+	if ok, w := scOut.decodeEq(ctx, out, idealOut, want); !ok {
 		ctx.Fail("message", name+"|result", "%s by %d parties (input level %d, decryption level %d, output level %d, f=%v, decode/encode=%v): %s", name, d.n, level, minLevel, outLevel, lin, tf != nil && tf.Decode, w)
 		return false
 	}
